@@ -15,6 +15,11 @@ Go sites mirrored (REPAIRED behaviour: c2aa5a1, 8ec6c57 and b8504d9 = fixes/C14-
   components/providers/http/provider/provider.go runPreloaded       `Model.C08.runPreloaded`
   components/providers/http/provider/provider.go Run                `httpRun` (sentinels of the preloaded path ↦ nil; sink closed)
 
+Tie to the source: `Pandora.Bridge.C14` proves that `isChosen`, one iteration of `fullScan` and of
+`Model.C08.preloaded`, the filter of the preloaded path, `scanArr`, the sentinel mapping, the deferred close and the
+decoder's Limit are the definitions that `/verif/gen -area chosencases` regenerates from these Go sites into
+`Pandora/Gen/ChosenCases.lean` on every check run.
+
 The decoder machines, `LoadAmmo` and the cyclic replay loop are the ones of `Pandora.Model.C08` (imported, not
 edited); what C14 adds is the chosen-case filter at the place where each path applies it, `runFullScan` with the
 no-ammo ending, and the two earlier revisions of the code (`Orig`, `Head`) that the counterexample theorems refute.
@@ -49,6 +54,16 @@ inductive Fmt where
 /-- `NewProvider` fails for http/json on a file without any JSON token (decoders.isArray: EOF), in both modes;
 every other file of entries is accepted. -/
 def constructs (k : Fmt) (n : Nat) : Bool := !(k == .jsonLines && n == 0)
+
+/-- What one iteration of a provider loop does — the vocabulary of the loop bodies that `/verif/gen` (area
+"chosencases") regenerates from provider.go into `Gen/ChosenCases.lean`:
+`ret r` the iteration ends `Run` with `r`; `offer i s` it reaches `select { case sink <- file[i]: … continue in s;
+case <-ctx.Done(): … }`; `tau s` it ends without a send (a filtered-out ammo). -/
+inductive Act (σ : Type) where
+  | ret (r : RunRes)
+  | offer (i : Nat) (s : σ)
+  | tau (s : σ)
+  deriving Repr
 
 /-! ## runFullScan (streaming path) -/
 
